@@ -12,6 +12,7 @@ events are recorded with digests of the complete request/response and validated 
 from __future__ import annotations
 
 import asyncio
+import gc
 import hashlib
 import os
 import pickle
@@ -19,7 +20,7 @@ import queue
 import re
 
 from . import common
-from .common import Check, Graph, impl_call
+from .common import Check, Graph
 
 KINDS = ["none", "login", "normal", "seed", "eq", "upload", "temp", "asset", "wrapper", "proxyonly"]
 BEHAVIOURS = ["ignore", "take", "takeResume", "resume", "inject", "rewrite", "nostream", "raise", "takeRaise", "handled"]
@@ -34,6 +35,14 @@ BAD_LLSD = b"<llsd><map><key>oops"
 
 class ScriptedRaise(Exception):
     pass
+
+
+def _raising_subscriber(_flow):
+    raise ScriptedRaise("subscriber")
+
+
+def _idle_subscriber(_flow):
+    return None
 
 
 # ----------------------------------------------------------------------------------------
@@ -116,7 +125,6 @@ class Runtime:
         cls = http_flow.HippoHTTPFlow
         if not getattr(cls, "_verif_wrapped", False):
             orig = cls.from_state.__func__
-            rt_ref = self
 
             def from_state(klass, flow_state, session_manager):
                 fl = orig(klass, flow_state, session_manager)
@@ -246,7 +254,6 @@ class World:
         from hippolyzer.lib.base.datatypes import UUID
         from hippolyzer.lib.proxy.addons import AddonManager
         from hippolyzer.lib.proxy.caps import CapType
-        from hippolyzer.lib.proxy.http_event_manager import MITMProxyEventManager
         from hippolyzer.lib.proxy.sessions import SessionManager
         from hippolyzer.lib.proxy.settings import ProxySettings
         self.rt = runtime()
@@ -350,7 +357,7 @@ class World:
             return "orig"
         if url == ADDON_URL:
             return "addon"
-        if fl.redirect_url and url == fl.redirect_url:
+        if url in fl.redirect_urls:
             return "handler"
         return "other:" + str(url)
 
@@ -433,7 +440,7 @@ class FlowDriver:
         self.salt_body = salt_body
         self.flow = None           # proxy-side original mitmproxy flow
         self.orig_url = None
-        self.redirect_url = None
+        self.redirect_urls = ()    # what a wrapper request may be rewritten to: same URL on the wrapped cap's host
         self.main = None           # last main-process HippoHTTPFlow built for this flow
         self.put_log = []          # (kind, flow id, main-side projection, main-side digest) per to_proxy put
         self.on_put = self._on_put   # a multi-flow run installs a dispatcher instead
@@ -455,7 +462,9 @@ class FlowDriver:
             base = self.w.urls[("orphanwrapper" if self.req_fault == "cap" else "wrapper", s, r)]
             url = base + "/?texture_id=00000000-0000-0000-0000-00000000abcd"
             if self.req_fault != "cap":
-                self.redirect_url = ASSET_URL + "/?texture_id=00000000-0000-0000-0000-00000000abcd"
+                host = ASSET_URL.split("/")[2]
+                self.redirect_urls = (ASSET_URL + "/?texture_id=00000000-0000-0000-0000-00000000abcd",
+                                      re.sub(r"^(https?://)[^/]+", lambda m: m.group(1) + host, ADDON_URL))
         else:
             url = self.w.urls[(k, s, r)]
             if k in ("normal", "upload", "temp"):
@@ -542,10 +551,22 @@ class FlowDriver:
         w.ctx.to_proxy_queue.on_put = self.on_put
         before = w.hook_calls
         st, res = "ok", None
+        # response-phase fault: besides the malformed body, the session's and the region's HTTP
+        # message handlers get a raising subscriber and a subscriber with a raising predicate
+        subs = []
+        if cfg["fault"] == "cap" and self.flow.response is not None and self.tgt[1]:
+            for h in (w.sessions[self.tgt[1]].http_message_handler, w.regions[(self.tgt[1], self.tgt[2])].http_message_handler):
+                evt = h.register("*")
+                evt.subscribe(_raising_subscriber)
+                evt.subscribe(_idle_subscriber, predicate=_raising_subscriber)
+                subs.append(evt)
         try:
             await w.em.pump_proxy_event()
         except Exception as e:  # an exception of the implementation is an observation
             st, res = "raise", type(e).__name__ + ": " + str(e)[:120]
+        for evt in subs:
+            evt.unsubscribe(_raising_subscriber)
+            evt.unsubscribe(_idle_subscriber)
         self.main = w.rt.built.get(self.flow.id)
         for a in w.addons:
             a.behaviour = "ignore"
@@ -607,14 +628,12 @@ def _lookahead(path):
     by the Handle configurations further down the replayed path."""
     req_fault = resp_fault = "none"
     owner = "absent"
-    seen_req = False
     for e in path:
         a = e["act"]
         if a["n"] == "Handle":
             ev = e["src"]["fromQ"][0][0]
             if ev == "request":
                 req_fault = a["cfg"]["fault"]
-                seen_req = True
             else:
                 resp_fault = a["cfg"]["fault"]
                 owner = a["cfg"]["owner"]
@@ -718,7 +737,7 @@ def _replay_chunk(edge_ids):
 # ----------------------------------------------------------------------------------------
 INVARIANTS = ["AtMostOnce", "BackUnlessOwned", "OwnedNotBack", "ResumedIffBack", "TakenExclusive", "Causal",
               "HeldUntilApplied", "RoutingStable", "FlagsStable", "AttributionKept", "AppliedAttribution",
-              "InjectedSurvives", "AppliedIsHandedBack"]
+              "InjectedSurvives"]
 
 
 def _tla_set(xs):
@@ -762,6 +781,10 @@ def _b1(chk: Check, c, label):
     del res
     g = Graph(recs)
     del recs
+    for e in g.edges:           # share the state records (memory: the pool forks this process)
+        e["src"], e["dst"] = g.states[e["_s"]], g.states[e["_d"]]
+    gc.collect()
+    gc.freeze()
     _G, _NADD = g, c["naddons"]
     ids = g.reachable_edges()
     # deepest first inside a chunk is irrelevant; interleave so that chunks cost about the same
@@ -802,6 +825,9 @@ def _b1(chk: Check, c, label):
                 "path": [p["act"] for p in g.path_to(e["_s"])] + [e["act"]],
                 "expected_observation": expected_obs(e["dst"])})
     _G = None
+    del g
+    gc.unfreeze()
+    gc.collect()
 
 
 ALLB = BEHAVIOURS
@@ -811,7 +837,10 @@ def run(chk: Check):
     chk.cov["rule"] = ("B1: every edge of the bounded model replayed (BFS path to its source state + the edge) into the real "
                        "proxy-side addon, event manager, flow wrapper and AddonManager over pickling queues, comparing "
                        "from_proxy/to_proxy queue items, the proxy-side flow and the main-side flow with the model's "
-                       "target state; non-trivial = edges that change the abstract state.")
+                       "target state; non-trivial = edges that change the abstract state. B2: random runs of several flows at "
+                       "once (3 scripted addons, generated host names and bodies, shared queues and managers), one trace "
+                       "per flow validated by TLC incl. digests of the whole request/response at hand-back vs. after the "
+                       "proxy applied it; non-trivial = flows with a non-idle hook that were handed back and applied.")
     chk.assumptions += [
         "flows are independent of each other in the model (they only share two FIFO queues); B2 runs several at once",
         "assert statements are enabled (no python -O): take/resume/preempt legality is an AssertionError",
@@ -819,17 +848,24 @@ def run(chk: Check):
         "a login reply in the explored universe is never a well-formed XML-RPC login response",
         "whether an injected asset response is handed to the main process at all is left open (not explored)",
         "server responses have status 200; no asset is served from the local asset repo; no cached EventQueueGet reply",
+        "B2: a temporary cap URL / an EventQueueGet URL is used by one flow per world (consumed / cached otherwise)",
+        "B2 reads MITMProxyEventManager._asset_server_proxied (state kept across flows) through a reflection bridge",
     ]
     F3 = ["none", "cap", "logger"]
     B6 = ["ignore", "take", "takeResume", "resume", "inject", "raise"]
     if chk.tier == "quick":
         _b1(chk, dict(kinds=KINDS, pairs=[21], behaviours=ALLB, naddons=1, faults=F3, maxcalls=1, bad=[False, True]), "N1-s2r1")
-        _b1(chk, dict(kinds=["normal", "seed"], pairs=[12], behaviours=ALLB, naddons=1, faults=F3, maxcalls=2, bad=[False]), "N1-s1r2")
+        _b1(chk, dict(kinds=["normal", "seed"], pairs=[12], behaviours=ALLB, naddons=1, faults=F3, maxcalls=1, bad=[False]), "N1-s1r2")
         _b1(chk, dict(kinds=["normal", "proxyonly"], pairs=[22], behaviours=B6, naddons=2, faults=["none"], maxcalls=1, bad=[False]), "N2")
+        _b2(chk, 96, 4, "walks")
     else:
-        _b1(chk, dict(kinds=KINDS, pairs=[11, 12, 21, 22], behaviours=ALLB, naddons=1, faults=F3, maxcalls=2, bad=[False, True]), "N1")
+        owned = [k for k in KINDS if k not in ("none", "login", "asset")]
+        for i, p in enumerate([21, 12, 11, 22]):
+            _b1(chk, dict(kinds=KINDS if i == 0 else owned, pairs=[p], behaviours=ALLB, naddons=1, faults=F3, maxcalls=2,
+                          bad=[False, True]), "N1-s%dr%d" % (p // 10, p % 10))
         _b1(chk, dict(kinds=["normal", "wrapper", "proxyonly", "none"], pairs=[12], behaviours=ALLB, naddons=2, faults=["none", "cap"],
                       maxcalls=1, bad=[False]), "N2")
+        _b2(chk, 1600, 5, "walks")
     chk.cov["exhaustive"] = True
 
 
@@ -882,9 +918,16 @@ async def _random_run(seed, n_flows, n_addons=3):
         else:
             rec.fd._on_put(obj)
 
+    used = set()
     for _ in range(n_flows):
-        k = rng.choice(KINDS)
-        s, r = (rng.choice((1, 2)), rng.choice((1, 2))) if k not in ("none", "login", "asset") else (0, 0)
+        # environment: a temporary cap is consumed by its first request and an EventQueueGet poll
+        # with a repeated ack is answered from the cache, so such URLs are used by one flow per world
+        while True:
+            k = rng.choice(KINDS)
+            s, r = (rng.choice((1, 2)), rng.choice((1, 2))) if k not in ("none", "login", "asset") else (0, 0)
+            if k not in ("temp", "eq") or (k, s, r) not in used:
+                break
+        used.add((k, s, r))
         req_fault = "cap" if k in ("wrapper", "eq", "seed") and rng.random() < 0.25 else "none"
         resp_fault = "cap" if k == "login" or (k in ("seed", "eq", "upload") and rng.random() < 0.3) else "none"
         owner = rng.choice(["absent", "bad", "s1", "s2"])
@@ -940,8 +983,12 @@ async def _random_run(seed, n_flows, n_addons=3):
             elif rng.random() < 0.3:
                 fault = "logger"
             logger = True if fault == "logger" else (rng.random() < 0.5 if is_req else False)
+            try:    # reflection bridge: state the event manager keeps across flows
+                proxied = bool(world.em._asset_server_proxied)
+            except AttributeError:
+                raise common.MachineryError("MITMProxyEventManager._asset_server_proxied is gone")
             cfg = {"addons": [rng.choice(BEHAVIOURS) for _ in range(n_addons)], "swallow": rng.random() < 0.6,
-                   "fault": fault, "logger": logger, "owner": fd.owner}
+                   "fault": fault, "logger": logger, "owner": fd.owner, "proxied": proxied}
             await fd.handle(cfg)
             puts = _new_puts(rec)
             order_to.extend((rec,) for _ in puts)
@@ -996,7 +1043,7 @@ def _b2(chk: Check, n_runs, n_flows, label):
     # of the trace by giving check_traces traces whose Reset is produced by common (tid only)
     # and whose first own event re-binds tgt
     tl = [[{"ev": "Target", "tgt": tgt}] + evs for tgt, evs in traces]
-    common.check_traces(chk, "HttpFlow_Trace", TRACE_CFG, tl, label)
+    common.check_traces(chk, "HttpFlow_Trace", TRACE_CFG, tl, label, shards=4 if chk.tier == "quick" else common.NCPU)
     for i, (tgt, evs) in enumerate(traces):
         if any(e["ev"] == "Handle" and any(b != "ignore" for b in e["cfg"]["addons"]) for e in evs) and \
                 any(e["ev"] == "Apply" for e in evs):
